@@ -52,6 +52,9 @@ func (s *Stats) Sample(x any) {
 	}
 }
 
+// Merge adds the counters of o (e.g. of a worker process) to s.
+func (s *Stats) Merge(o *Stats) { s.merge(o) }
+
 func (s *Stats) merge(o *Stats) {
 	s.Execs += o.Execs
 	s.Points += o.Points
@@ -175,6 +178,14 @@ type Result struct {
 	Skipped     []string
 	HangSuspect string
 	Wall        time.Duration
+	Slowest     []ShardTime // the slowest shards (for tuning the partition)
+}
+
+// ShardTime is the duration of one shard and the time at which it ended.
+type ShardTime struct {
+	Name    string  `json:"shard"`
+	Seconds float64 `json:"seconds"`
+	EndedAt float64 `json:"ended_at_s"`
 }
 
 // Run executes all shards. Shard order is permuted by Seed (the partition
@@ -224,11 +235,14 @@ func (p *Pool) Run(shards []Shard, col *Collector) Result {
 				p.cur[w].shard.Store(&name)
 				p.cur[w].since.Store(time.Now().UnixNano())
 				var st Stats
+				t0 := time.Now()
 				sh.Run(&st, col)
+				d := time.Since(t0)
 				p.cur[w].shard.Store(nil)
 				mu.Lock()
 				res.Stats.merge(&st)
 				res.ShardsDone++
+				res.Slowest = append(res.Slowest, ShardTime{sh.Name, d.Seconds(), time.Since(start).Seconds()})
 				mu.Unlock()
 			}
 		}(w)
@@ -259,6 +273,10 @@ loop:
 		}
 	}
 	res.Wall = time.Since(start)
+	sort.Slice(res.Slowest, func(i, j int) bool { return res.Slowest[i].Seconds > res.Slowest[j].Seconds })
+	if len(res.Slowest) > 8 {
+		res.Slowest = res.Slowest[:8]
+	}
 	return res
 }
 
